@@ -6,8 +6,56 @@
 package queryer
 
 import (
+	"github.com/buildbuildio/pebbles/gqlerrors"
 	"github.com/buildbuildio/pebbles/requests"
 )
+
+var _ gqlerrors.ErrorList
+
+// LastStatus is ghost state: the status code of the last HTTP response received.
+var LastStatus int
+
+//@ extern net/http (*Client).Do
+//@ returns resp, err
+//@ assumes-post err == nil ==> resp != nil && resp.Body != nil && LastStatus == resp.StatusCode
+//@ assumes-post gqlerrors.nonvacuous(err)
+//@ modifies fresh, global(LastStatus)
+//@ end
+
+//@ func RequestMiddleware
+//@ trusted callback supplied by the embedding application
+//@ ensures gqlerrors.nonvacuous(result)
+//@ modifies fresh
+//@ end
+
+//@ extern net/http NewRequest
+//@ returns req, err
+//@ ensures err == nil ==> req != nil
+//@ ensures gqlerrors.nonvacuous(err)
+//@ modifies fresh
+//@ end
+
+//@ extern io/ioutil ReadAll
+//@ returns b, err
+//@ ensures gqlerrors.nonvacuous(err)
+//@ modifies fresh
+//@ end
+
+//@ extern encoding/json Marshal
+//@ returns b, err
+//@ ensures gqlerrors.nonvacuous(err)
+//@ modifies fresh
+//@ end
+
+//@ func (*MultiOpQueryer).sendRequest
+//@ props C11 C09
+//@ returns body, err
+//@ requires q != nil && request != nil
+//@ requires forall(k, 0, len(q.mdwares), q.mdwares[k] != nil)
+//@ ensures[status-checked] err == nil ==> 200 <= LastStatus && LastStatus <= 299
+//@ ensures[errkind] gqlerrors.nonvacuous(err)
+//@ modifies-assumed fresh, global(LastStatus), q.client
+//@ end
 
 // Ans is the protocol boundary: "data answers req" (element j of a batched reply
 // answers element j of the request array). Uninterpreted.
@@ -27,8 +75,9 @@ var QueryCalls int
 //@ ensures[len] err == nil ==> len(res) == len(inputs)
 //@ ensures[ans] err == nil ==> forall(k, 0, len(inputs), Ans(inputs[k], res[k]))
 //@ ensures[no-partial] err != nil ==> res == nil
+//@ ensures[errkind] gqlerrors.nonvacuous(err) @props C09
 //@ assumes-post QueryCalls == old(QueryCalls) + 1
-//@ modifies fresh, entries(map[string]interface{}), elems(interface{}), elems(map[string]interface{}), global(QueryCalls)
+//@ modifies fresh, entries(map[string]interface{}), elems(interface{}), elems(map[string]interface{}), global(QueryCalls), global(LastStatus), all(MultiOpQueryer.client)
 //@ end
 
 //@ define chunkHi(i int, m int, n int) int = ite((i+1)*m > n, n, (i+1)*m)
@@ -38,10 +87,12 @@ var QueryCalls int
 //@ props C11
 //@ returns res, err
 //@ requires q != nil && q.maxBatchSize >= 1
+//@ requires forall(k, 0, len(q.mdwares), q.mdwares[k] != nil)
 //@ ensures[len] err == nil ==> len(res) == len(inputs)
 //@ ensures[ans] err == nil ==> forall(k, 0, len(inputs), Ans(inputs[k], res[k]))
 //@ ensures[no-partial] err != nil ==> res == nil
-//@ modifies fresh, entries(map[string]interface{}), elems(interface{}), elems(map[string]interface{})
+//@ ensures[errkind] gqlerrors.nonvacuous(err) @props C09
+//@ modifies fresh, entries(map[string]interface{}), elems(interface{}), elems(map[string]interface{}), global(LastStatus), all(MultiOpQueryer.client)
 //@ fold 0 invariant[len] len(acc) == lInputs
 //@ fold 0 invariant[partition] forall(p, 0, lInputs, unfolding(chunkOf(p, q.maxBatchSize), 0 <= chunkOf(p, q.maxBatchSize) && chunkOf(p, q.maxBatchSize) < n && chunkOf(p, q.maxBatchSize)*q.maxBatchSize <= p && p < chunkHi(chunkOf(p, q.maxBatchSize), q.maxBatchSize, lInputs)))
 //@ fold 0 invariant[ans] forall(c, 0, n, done(c) ==> forall(p, c*q.maxBatchSize, chunkHi(c, q.maxBatchSize, lInputs), Ans(inputs[p], acc[p])))
@@ -52,10 +103,12 @@ var QueryCalls int
 //@ returns res, err
 //@ requires q != nil && q.maxBatchSize >= 1 && lInputs == len(inputs) && lInputs > q.maxBatchSize
 //@ requires 0 <= i && i < lInputs / q.maxBatchSize + 1
+//@ requires forall(k, 0, len(q.mdwares), q.mdwares[k] != nil)
 //@ ensures[index] err == nil ==> res != nil && res.Index == i && fresh(res.Response)
 //@ ensures[size] err == nil ==> len(res.Response) == chunkHi(i, q.maxBatchSize, lInputs) - i*q.maxBatchSize
 //@ ensures[ans] err == nil ==> forall(j, 0, len(res.Response), Ans(inputs[i*q.maxBatchSize+j], res.Response[j]))
-//@ modifies fresh, entries(map[string]interface{}), elems(interface{})
+//@ ensures[errkind] gqlerrors.nonvacuous(err) @props C09
+//@ modifies fresh, entries(map[string]interface{}), elems(interface{}), global(LastStatus), all(MultiOpQueryer.client)
 //@ end
 
 //@ func (*MultiOpQueryer).Query$2
@@ -72,12 +125,13 @@ var QueryCalls int
 //@ func (*MultiOpQueryer).queryBatch
 //@ props C11
 //@ returns results, err
-//@ requires q != nil
+//@ requires q != nil && forall(k, 0, len(q.mdwares), q.mdwares[k] != nil)
 //@ ensures[len] err == nil ==> len(results) == len(inputs)
 //@ ensures[ans] err == nil ==> forall(k, 0, len(inputs), Ans(inputs[k], results[k]))
 //@ ensures[no-partial] err != nil ==> results == nil
 //@ ensures[fresh] err == nil ==> fresh(results)
-//@ modifies fresh, entries(map[string]interface{}), elems(interface{})
+//@ ensures[errkind] gqlerrors.nonvacuous(err) @props C09
+//@ modifies fresh, entries(map[string]interface{}), elems(interface{}), global(LastStatus), all(MultiOpQueryer.client)
 //@ loop 0 invariant[own] (base(inputsToFetch) == 0 || fresh(inputsToFetch)) && (base(toFetchIndexes) == 0 || fresh(toFetchIndexes)) && fresh(results)
 //@ loop 0 invariant[lens] len(results) == len(inputs) && len(toFetchIndexes) == len(inputsToFetch)
 //@ loop 0 invariant[idx] forall(j, 0, len(toFetchIndexes), 0 <= toFetchIndexes[j] && toFetchIndexes[j] < it && inputsToFetch[j] == inputs[toFetchIndexes[j]] && !FileReq(inputs[toFetchIndexes[j]]))
@@ -90,10 +144,12 @@ var QueryCalls int
 //@ func (*MultiOpQueryer).fetch
 //@ props C11
 //@ returns results, err
-//@ requires q != nil
+//@ requires q != nil && forall(k, 0, len(q.mdwares), q.mdwares[k] != nil)
 //@ ensures[len] err == nil ==> len(results) == len(inputs)
+//@ ensures[status-checked] err == nil ==> 200 <= LastStatus && LastStatus <= 299
+//@ ensures[errkind] gqlerrors.nonvacuous(err) @props C09
 //@ assumes-post err == nil ==> forall(j, 0, len(inputs), j < len(results) ==> Ans(inputs[j], results[j].Data))
-//@ modifies fresh
+//@ modifies fresh, global(LastStatus), q.client
 //@ end
 
 //@ func (*MultiOpQueryer).fetchFile
@@ -102,11 +158,15 @@ var QueryCalls int
 //@ ensures err == nil && resp == nil ==> !FileReq(input)
 //@ ensures err == nil && resp != nil ==> FileReq(input) && fresh(resp)
 //@ ensures err == nil && resp != nil && len(resp.Errors) == 0 ==> Ans(input, resp.Data)
-//@ modifies entries(map[string]interface{}), elems(interface{})
+//@ ensures gqlerrors.nonvacuous(err)
+//@ modifies entries(map[string]interface{}), elems(interface{}), global(LastStatus), all(MultiOpQueryer.client)
 //@ end
 
 //@ func (*MultiOpQueryer).sendQueryRequest
+//@ props C11 C09
 //@ returns body, err
-//@ trusted HTTP transport boundary
-//@ modifies fresh
+//@ requires q != nil && forall(k, 0, len(q.mdwares), q.mdwares[k] != nil)
+//@ ensures[status-checked] err == nil ==> 200 <= LastStatus && LastStatus <= 299
+//@ ensures[errkind] gqlerrors.nonvacuous(err)
+//@ modifies-assumed fresh, global(LastStatus), q.client
 //@ end
